@@ -12,7 +12,7 @@
 //!        wall-clock limit per input and records ok / err / panic / abort(signal) / timeout.
 //!   doc-cost-garbage --seed N --count K --out <ndjson {"family":"garbage","n":i,"text":[cps],"gen":..}>
 //!        seeded hostile-input generators (markup alphabet, char-level splices of seed documents,
-//!        token-level mutations of seed documents).
+//!        token-level mutations of seed documents, structured documents with random entity graphs).
 use crate::util::*;
 use rand::rngs::StdRng;
 use rand::{Rng, SeedableRng};
@@ -728,6 +728,120 @@ fn gen_token(rng: &mut StdRng) -> String {
     ts.concat()
 }
 
+/// Structured generator: a syntactically plausible document with a random entity graph (forward
+/// references, cycles, undeclared names, parameter entities), ATTLIST defaults that use entities,
+/// unparsed entities / notations, nested elements whose attributes and text use the entities.  Most
+/// of these are accepted or rejected late, so the whole pipeline (lazy values, printing) runs.
+fn gen_structured(rng: &mut StdRng) -> String {
+    let nent = rng.gen_range(0..6usize);
+    let ename = |k: usize| format!("e{}", k);
+    let mut s = String::new();
+    if rng.gen_bool(0.2) {
+        s.push_str("<?xml version=\"1.0\"?>");
+    }
+    let with_dtd = rng.gen_bool(0.85);
+    if with_dtd {
+        s.push_str("<!DOCTYPE r");
+        match rng.gen_range(0..6) {
+            0 => s.push_str(" SYSTEM \"r.dtd\""),
+            1 => s.push_str(" PUBLIC \"-//p\" \"r.dtd\""),
+            _ => {}
+        }
+        s.push_str(" [");
+        for k in 0..nent {
+            let quote = if rng.gen_bool(0.8) { '"' } else { '\'' };
+            match rng.gen_range(0..12) {
+                0 => s.push_str(&format!("<!ENTITY {} SYSTEM \"x{}.xml\">", ename(k), k)),
+                1 => s.push_str(&format!("<!NOTATION n{} SYSTEM \"n\"><!ENTITY {} SYSTEM \"u\" NDATA n{}>", k, ename(k), k)),
+                2 => s.push_str(&format!("<!ENTITY % p{} {}x{}>", k, quote, quote)),
+                _ => {
+                    s.push_str(&format!("<!ENTITY {} {}", ename(k), quote));
+                    for _ in 0..rng.gen_range(0..4) {
+                        match rng.gen_range(0..9) {
+                            0 | 1 | 2 => s.push_str(&format!("&{};", ename(rng.gen_range(0..nent + 1)))),
+                            3 => s.push_str(["&#60;", "&#38;", "&#x26;#60;", "&#10;", "&#x9;", "&#38;#38;"][rng.gen_range(0..6)]),
+                            4 => s.push_str(["&lt;", "&amp;", "&apos;", "&quot;", "&gt;"][rng.gen_range(0..5)]),
+                            5 => s.push_str(&format!("%p{};", rng.gen_range(0..nent + 1))),
+                            6 => s.push_str(["<b/>", "<b>", "</b>", "<!--c-->", "<?p d?>", "<![CDATA[x]]>"][rng.gen_range(0..6)]),
+                            _ => s.push_str(["t", " ", "\n", "\u{e9}", "x y", "\t"][rng.gen_range(0..6)]),
+                        }
+                    }
+                    s.push(quote);
+                    s.push('>');
+                }
+            }
+            if rng.gen_bool(0.1) {
+                s.push_str(&format!("%p{};", rng.gen_range(0..nent + 1)));
+            }
+        }
+        for _ in 0..rng.gen_range(0..3) {
+            let el = ["r", "a", "b"][rng.gen_range(0..3)];
+            let an = ["x", "y", "xml:lang", "xmlns", "xmlns:p", "p:z"][rng.gen_range(0..6)];
+            let ty = ["CDATA", "ID", "IDREF", "NMTOKENS", "(u|v)", "NOTATION (n0|n1)", "ENTITY", "ENTITIES"][rng.gen_range(0..8)];
+            let de = match rng.gen_range(0..6) {
+                0 => "#IMPLIED".to_string(),
+                1 => "#REQUIRED".to_string(),
+                2 => format!("#FIXED \"&{};\"", ename(rng.gen_range(0..nent + 1))),
+                3 => format!("\"&{}; v\"", ename(rng.gen_range(0..nent + 1))),
+                4 => "\"u\"".to_string(),
+                _ => "\" a  b \"".to_string(),
+            };
+            s.push_str(&format!("<!ATTLIST {} {} {} {}>", el, an, ty, de));
+        }
+        if rng.gen_bool(0.3) {
+            s.push_str(["<!ELEMENT r ANY>", "<!ELEMENT r (a|b)*>", "<!ELEMENT a (#PCDATA|b)*>", "<!ELEMENT b EMPTY>", "<!ELEMENT r ((a,b?)+|(b|a)*)>"][rng.gen_range(0..5)]);
+        }
+        s.push_str("]>");
+    }
+    // element tree
+    fn elem(rng: &mut StdRng, s: &mut String, depth: usize, nent: usize) {
+        let name = ["r", "a", "b", "p:a"][if depth == 0 { 0 } else { rng.gen_range(0..4) }];
+        s.push('<');
+        s.push_str(name);
+        let mut used = vec![];
+        for _ in 0..rng.gen_range(0..3) {
+            let an = ["x", "y", "xml:lang", "xmlns", "xmlns:p", "p:z"][rng.gen_range(0..6)];
+            if used.contains(&an) && rng.gen_bool(0.9) {
+                continue;
+            }
+            used.push(an);
+            s.push(' ');
+            s.push_str(an);
+            s.push_str("=\"");
+            for _ in 0..rng.gen_range(0..3) {
+                match rng.gen_range(0..6) {
+                    0 | 1 => s.push_str(&format!("&e{};", rng.gen_range(0..nent + 1))),
+                    2 => s.push_str(["&#10;", "&#x41;", "&lt;", "&amp;"][rng.gen_range(0..4)]),
+                    _ => s.push_str(["u", " ", "\n", "a  b", "\u{e9}"][rng.gen_range(0..5)]),
+                }
+            }
+            s.push('"');
+        }
+        if rng.gen_bool(0.25) {
+            s.push_str("/>");
+            return;
+        }
+        s.push('>');
+        for _ in 0..rng.gen_range(0..4) {
+            match rng.gen_range(0..10) {
+                0 | 1 | 2 if depth < 6 => elem(rng, s, depth + 1, nent),
+                3 | 4 => s.push_str(&format!("&e{};", rng.gen_range(0..nent + 1))),
+                5 => s.push_str(["&#65;", "&#x1F600;", "&lt;", "&amp;", "&#x9;"][rng.gen_range(0..5)]),
+                6 => s.push_str(["<!--c-->", "<?p d?>", "<![CDATA[<&]]>", "<![CDATA[]]>"][rng.gen_range(0..4)]),
+                _ => s.push_str(["t", " ", "\n ", "x y", "\u{3042}"][rng.gen_range(0..5)]),
+            }
+        }
+        s.push_str("</");
+        s.push_str(if rng.gen_bool(0.97) { name } else { "zz" });
+        s.push('>');
+    }
+    elem(rng, &mut s, 0, nent);
+    if rng.gen_bool(0.1) {
+        s.push_str("<!--t--><?q?>\n");
+    }
+    s
+}
+
 fn garbage(args: &[String]) -> i32 {
     let seed: u64 = arg_value(args, "--seed").and_then(|s| s.parse().ok()).unwrap_or(1);
     let count: usize = arg_value(args, "--count").and_then(|s| s.parse().ok()).unwrap_or(1000);
@@ -742,10 +856,11 @@ fn garbage(args: &[String]) -> i32 {
     }
     while n < count {
         n += 1;
-        let (gen, text) = match rng.gen_range(0..3) {
+        let (gen, text) = match rng.gen_range(0..4) {
             0 => ("alphabet", gen_alphabet(&mut rng)),
             1 => ("splice", gen_splice(&mut rng)),
-            _ => ("token", gen_token(&mut rng)),
+            2 => ("token", gen_token(&mut rng)),
+            _ => ("structured", gen_structured(&mut rng)),
         };
         writeln!(w, "{}", json!({"family": "garbage", "n": n, "gen": gen, "text": string_to_cps(&text)})).unwrap();
     }
